@@ -164,9 +164,13 @@ def make_case(cls, isa, arch, r, pools):
             case["arch"] = None
         if cls == "corpus_lines":
             with open(case["path"]) as f:
-                n = len(f.read().split("\n"))
-            a = r.randrange(1, max(2, n - 3))
-            b = min(n, a + r.randrange(2, 30))
+                fl = f.read().split("\n")
+            n = len(fl)
+            for _ in range(50):  # the named range must contain at least one instruction (an empty kernel is no kernel)
+                a = r.randrange(1, max(2, n - 3))
+                b = min(n, a + r.randrange(2, 30))
+                if any(l.strip() and not re.match(r"^\s*(#|//|\.|[.\w$]+:)", l) for l in fl[a - 1 : b]):
+                    break
             case["lines"] = r.choice(["%d-%d", "%d:%d"]) % (a, b)
         return case
     lines = []
